@@ -23,6 +23,8 @@ class G:
         self.packed = len(self.payload) if packed is None else packed
         self.avail = avail            # None: all bytes present
         self.perms, self.time = perms, time
+        self.os = os
+        self.outer = None          # Mac members: what the caller obtains (envelope stripped), if different from data
 
     def member(self):
         kw = {}
@@ -33,6 +35,8 @@ class G:
             if self.level == 0:
                 # level 0 has no extended headers: keep the whole path in the in-header name
                 m.name = self.path
+            if self.os is not None:
+                m.os = self.os
             return m
         if self.kind == "dir":
             p = 0o40755 if self.perms == "default" else self.perms
@@ -61,6 +65,12 @@ class G:
             kind = "file" if self.kind == "file" else ("dlink" if self.dangerous() else "slink")
         sup = self.kind == "file" and self.method.decode("latin1") in SUPPORTED
         data = self.data[:self.length] if sup else b""
+        if self.outer is not None:
+            # MacBinary: the verdict is about the whole inner stream, the bytes handed out are the data fork
+            good = sup and len(data) == self.length and arc.crc16(data) == self.crc
+            return {"id": _hex(full), "kind": kind, "dirp": comps, "plen": len(full), "packed": self.packed,
+                    "avail": self.packed if self.avail is None else self.avail, "sup": sup, "data": list(self.outer), "good": good,
+                    "macfail": bool(getattr(self, "macfail", False))}
         good = sup and len(data) == self.length and arc.crc16(data) == self.crc and (self.avail is None or self.avail == self.packed)
         return {"id": _hex(full), "kind": kind, "dirp": comps, "plen": len(full), "packed": self.packed,
                 "avail": self.packed if self.avail is None else self.avail, "sup": sup,
@@ -86,6 +96,37 @@ def compressed_pool():
     if os.path.exists(pm2):
         _pool["-pm2-"] = (open(pm2, "rb").read(), gpl)
     return _pool
+
+
+def mac_member(rng, path, level=1):
+    """a member written by MacLHA: OS type 'm', with a MacBinary envelope, without one, or with an
+    envelope announced (>= 128 bytes declared) but less than 128 bytes of data behind it"""
+    import struct
+    nm = path.split(b"/")[-1]
+    data = bytes(rng.randrange(256) for _ in range(rng.choice([0, 5, 200])))
+    mt = 1000000000
+    q = rng.random()
+    if q < 0.5:
+        h = bytearray(128)
+        h[1] = len(nm); h[2:2 + len(nm)] = nm
+        struct.pack_into(">I", h, 0x53, len(data)); struct.pack_into(">I", h, 0x5f, mt + 2082844800)
+        body = bytes(h) + data
+        body += b"\0" * ((-len(body)) % 128)
+        g = G("file", path, data=body, level=level, time=mt, os=ord("m"))
+        g.outer = data if len(data) > 0 else body[128:128]       # data fork only (resource fork absent)
+        if len(data) == 0:
+            g.outer = b""
+        return g
+    if q < 0.75:
+        g = G("file", path, data=data, level=level, time=mt, os=ord("m"))      # Mac member without envelope
+        g.outer = data
+        return g
+    # announced 300 bytes, only 64 present: the envelope cannot even be read
+    g = G("file", path, data=b"A" * 64, level=level, time=mt, os=ord("m"))
+    g.length = 300
+    g.outer = b""
+    g.macfail = True
+    return g
 
 
 def random_archive(rng, nmax=6, with_compressed=True, allow_bad=True):
@@ -125,6 +166,9 @@ def random_archive(rng, nmax=6, with_compressed=True, allow_bad=True):
                 if p in used and b"/" not in p:
                     p = p + b"%d" % len(used)
                 used.add(p)
+            if rng.random() < 0.12 and lvl >= 1:
+                ms.append(mac_member(rng, p, lvl))
+                continue
             if pool and rng.random() < 0.45:
                 meth = rng.choice(sorted(pool))
                 payload, plain = pool[meth]
